@@ -88,7 +88,8 @@ def build_grid(desc, rng):
     from abmarl.sim.gridworld.done import ActiveDone
     from . import gridsim as G
 
-    mk, rows, cols, ags, ov = desc
+    mk, rows, cols, ags, ov = desc[:5]
+    pkind, rev, pflags = desc[5] if len(desc) > 5 else (0, 0, [0, 0, 0, 0])
 
     class HAgent(GridObservingAgent, MovingAgent, AttackingAgent, AmmoAgent, OrientationAgent):
         pass
@@ -126,13 +127,28 @@ def build_grid(desc, rng):
         else:
             agents[G.aid(i)] = GridWorldAgent(**kw)
     encs = sorted({a[0] for a in ags})
+    pkw = {}
+    pstate = PositionState
+    if pkind:
+        # one of the target/barrier/free placement states: agent 0 is the target, encoding 2 (if
+        # present) is the barrier encoding, everything else free
+        from abmarl.sim.gridworld.state import TargetBarriersFreePlacementState, MazePlacementState
+        pstate = TargetBarriersFreePlacementState if pkind == 1 else MazePlacementState
+        pkw = dict(target_agent=agents[G.aid(0)], barrier_encodings=({2} if 2 in encs else None),
+                   free_encodings={e for e in encs if e != 2} or None,
+                   no_overlap_at_reset=bool(pflags[0]), randomize_placement_order=bool(pflags[1]),
+                   cluster_barriers=bool(pflags[2]), scatter_free_agents=bool(pflags[3]))
     sim = HSim.build_sim(rows, cols, agents=agents, overlapping={k: set(v) for k, v in ov},
-                         states={PositionState, HealthState, AmmoState, OrientationState},
+                         states={pstate, HealthState, AmmoState, OrientationState},
                          observers={PositionCenteredEncodingObserver}, dones={ActiveDone},
-                         attack_mapping={e: set(encs) for e in encs})
+                         attack_mapping={e: set(encs) for e in encs}, **pkw)
     # the smart simulation keeps its components in Python sets (iteration order = object ids, which
     # differ between two objects): fix the order so that both twins consume random numbers alike
+    # (by class name, or the reverse: the position state then resets BEFORE the health state)
     pubapi.fix_component_order(sim)
+    if rev:
+        for kind_ in ("states", "observers", "dones"):
+            pubapi.set_components(sim, kind_, list(reversed(pubapi.components(sim, kind_))))
 
     def probe():
         if not all(pubapi.pub(a, "health") is not None for a in sim.agents.values()):
@@ -319,6 +335,11 @@ def impl(inp):
     # dirty the used object
     for n, cut in enumerate(prefix):
         twin.play(used, random.Random(seeds[0] + n), cut, seeds[1] + n)
+    if seeds[3] % 2 == 0:
+        # half of the cases: both objects alive and called alternately (state shared between
+        # instances of a class would make them differ)
+        f_out, u_out = twin.play_lockstep(fresh, used, seeds[2], nfollow, seeds[3])
+        return [f_out, u_out]
     f_out = twin.play(fresh, random.Random(seeds[2]), nfollow, seeds[3])
     u_out = twin.play(used, random.Random(seeds[2]), nfollow, seeds[3])
     return [f_out, u_out]
@@ -326,7 +347,7 @@ def impl(inp):
 
 def split(inp, out):
     if out[0] == -1:
-        return [inp, [-1]], out
+        return [inp, out], out          # the stack refuses this configuration (both twins alike)
     return [inp, out[0]], out[1]
 
 
@@ -342,14 +363,16 @@ def rand_grid_desc(rng, mk):
         pos = list(cells[i]) if rng.random() < 0.5 else []
         ags.append([rng.choice(encs), pos, rng.choice([0, 1, 2, 3, 4]), rng.choice([0, 1, 3]),
                     rng.choice([0, 1, 2, 3, 4]), 1 if (i == 0 or rng.random() < 0.8) else 0])
-    return [mk, rows, cols, ags, ov]
+    # which position state, in which order the state components reset, placement options
+    pst = [rng.choice([0, 0, 1, 1, 2]), rng.randint(0, 1), [rng.randint(0, 1) for _ in range(4)]]
+    return [mk, rows, cols, ags, ov, pst]
 
 
 def gen(tier, rng):
     quick = tier != "thorough"
-    n = 500 if quick else 10000
+    n = 1300 if quick else 16000
     for _ in range(n):
-        kind = rng.choice(sorted(STACKS))
+        kind = rng.choice(sorted(STACKS) + [2, 2, 2])       # the grid simulation has the most variants
         mk = rng.choice([0, 1, 2]) if kind == 0 else rng.choice([0, 1])
         if kind == 0:
             desc = [mk, stubsim.random_script(rng, mk, nmax=4, tmax=6)]
@@ -413,6 +436,10 @@ def nontrivial(inp, out):
 
 def classify(inp, out):
     kind = {0: "script", 1: "corridor", 2: "grid"}.get(inp[0], f"stack{inp[0]}")
+    if inp[0] == 2 and len(inp[1]) > 5:
+        kind = "grid-" + ["PositionState", "TargetBarriersFree", "Maze"][inp[1][5][0]] + \
+               ("-placed-first" if inp[1][5][1] else "") + \
+               ("-refused" if str(out).lstrip("( ").startswith("-1") else "")
     if inp[0] == 5:
         from . import gen_C02
         return f"example-{gen_C02.EXAMPLES[inp[1][0]][0]}/{MGR.get(inp[1][1], 'x')}/prefix{min(len(inp[2]), 3)}"
